@@ -13,9 +13,12 @@ def block_cfg(name, prop, kinds, dirs, bs, w, maxu, objs, invs):
     txt += "SPECIFICATION Spec\nINVARIANTS %s NoJunk EmitReplay\nCHECK_DEADLOCK FALSE\n" % " ".join(invs)
     open(os.path.join(HERE, name + ".cfg"), "w").write(txt)
 
-def add(prop, module, cfg, tiers, timeout, actions):
-    """actions: the named sub-actions of Next that must have been taken (vacuity guard)"""
-    MC.setdefault(prop, []).append((module, cfg + ".cfg", tiers, timeout, actions))
+def add(prop, module, cfg, tiers, timeout, actions, mode=None):
+    """actions: the named sub-actions of Next that must have been taken (vacuity guard);
+    mode: None = exhaustive breadth-first; {"sim": num, "depth": d} = TLC simulation (random behaviours, used to
+    obtain long behaviours for replay); {"expect": "C11"} = the run must END in a violation of that invariant
+    (documents a known finding at model level)"""
+    MC.setdefault(prop, []).append((module, cfg + ".cfg", tiers, timeout, actions, mode or {}))
 
 ALLK = ["cbc", "pcbc", "ige", "cfb", "cfb8", "ofbblk"]
 ED = ["enc", "dec"]
@@ -33,6 +36,37 @@ block_cfg("MC_Block_C12_q", "C12", ALLK, ED, 2, 2, 3, ["p", "q"], ["C12", "C02",
 add("C12", "MC_Block.tla", "MC_Block_C12_q", ("quick", "thorough"), 900, ["ActP", "ActQ", "ActExp"])
 block_cfg("MC_Block_C12_t1", "C12", ALLK, ED, 2, 3, 4, ["p", "q"], ["C12", "C02", "C03"])
 add("C12", "MC_Block.tla", "MC_Block_C12_t1", ("thorough",), 3000, ["ActP", "ActQ", "ActExp"])
+
+# --- byte-level stream ciphers: ImplStream.tla (wrapper + cores) vs the position machines ------------------
+def stream_cfg(name, prop, kinds, bs, fl, depth, fields, seeks, types, usize, invs, view=True, replay=False):
+    txt = "CONSTANTS\n  KINDS = %s\n  BS = %d\n  FL = %d\n  DEPTH = %d\n  FIELDS = {%s}\n  SEEKS = {%s}\n  TYPES = %s\n  USIZE = %d\n  PROP = \"%s\"\n" % (
+        sset(kinds), bs, fl, depth, ", ".join(map(str, fields)), ", ".join(map(str, seeks)), sset(types), usize, prop)
+    txt += "SPECIFICATION Spec\n" + ("VIEW View\n" if view else "")
+    txt += "INVARIANTS %s BufInv%s\nCHECK_DEADLOCK FALSE\n" % (" ".join(invs), " EmitReplay" if replay else "")
+    open(os.path.join(HERE, name + ".cfg"), "w").write(txt)
+
+# bs = 2, two base-4 digits per counter: 15 blocks, end of keystream at byte 30; (30, 32) is the known-finding region
+SEEKS_OK = [0, 1, 2, 3, 5, 8, 27, 28, 29, 30, 32, 33, 40]
+ACTS = ["ActApply", "ActSeek", "ActPos", "ActRem"]
+for prop, kinds, invs in [("C04", ["ctr32be", "ctr32le"], ["C04", "C10", "C11"]),
+                          ("C06", ["belt"], ["C06", "C10", "C11"]),
+                          ("C10", ["ctr32be", "belt"], ["C10", "C04", "C06", "C11"]),
+                          ("C11", ["ctr32le", "belt"], ["C11", "C10", "C04", "C06"]),
+                          ("C08", ["ctr32be", "ofb", "belt"], ["C03", "C04", "C06", "C08"])]:
+    seeks = SEEKS_OK if prop != "C08" else [0]
+    acts = ACTS if prop != "C08" else ["ActApply", "ActRem"]
+    stream_cfg("MC_Stream_%s_q" % prop, prop, kinds, 2, 2, 3, [0, 14, 15], seeks, ["d2", "d3"], 8, invs)
+    add(prop, "MC_Stream.tla", "MC_Stream_%s_q" % prop, ("quick", "thorough"), 900, acts)
+    stream_cfg("MC_Stream_%s_sim" % prop, prop, kinds, 2, 2, 7, [0, 14, 15], seeks, ["d2", "d3"], 8, invs, view=False, replay=True)
+    add(prop, "MC_Stream.tla", "MC_Stream_%s_sim" % prop, ("quick", "thorough"), 900, [], {"sim": 40, "depth": 8})
+    stream_cfg("MC_Stream_%s_t" % prop, prop, kinds, 2, 2, 5, [0, 14, 15], seeks, ["d2", "d3"], 8, invs)
+    add(prop, "MC_Stream.tla", "MC_Stream_%s_t" % prop, ("thorough",), 3000, acts)
+# usize narrower than the counter: remaining_blocks() is None far from the end (as for the 128-bit flavours)
+stream_cfg("MC_Stream_C11_usize", "C11", ["ctr32be", "belt"], 2, 2, 4, [0, 15], SEEKS_OK, ["d3"], 1, ["C11", "C10", "C04", "C06"])
+add("C11", "MC_Stream.tla", "MC_Stream_C11_usize", ("thorough",), 3000, ACTS)
+# the known finding, at model level: admitting a seek target inside the last, never-generated block breaks C11
+stream_cfg("MC_Stream_C11_finding", "C11", ["ctr32be"], 2, 2, 3, [0], [31], ["d3"], 8, ["C11"])
+add("C11", "MC_Stream.tla", "MC_Stream_C11_finding", ("thorough",), 900, [], {"expect": "C11"})
 
 open(os.path.join(HERE, "..", "mc_configs.py"), "w").write(
     "# generated by spec/gen_cfgs.py - model-checking configurations per property:\n"
